@@ -294,6 +294,28 @@ class _SetSub(set):
     pass
 
 
+class _Forward:
+    """an instance of an unsupported class that reports the class of the object it wraps through __class__ and forwards every
+    attribute to it (what transparent proxies do; type(x) is still this class)"""
+
+    def __init__(self, o):
+        object.__setattr__(self, "_o", o)
+
+    __class__ = property(lambda self: type(object.__getattribute__(self, "_o")))
+
+    def __getattr__(self, name):
+        return getattr(object.__getattribute__(self, "_o"), name)
+
+    def __iter__(self):
+        return iter(object.__getattribute__(self, "_o"))
+
+    def __len__(self):
+        return len(object.__getattribute__(self, "_o"))
+
+
+_PROXIED = [frozenset((1, 2)), _SetSub({3})]       # referents of the weakref proxies below (kept alive here)
+
+
 def _name_collision(base, name, module=None):
     # module="builtins": what a class statement executed in a namespace without __name__ (a bare exec) produces
     return type(name, (base,), {} if module is None else {"__module__": module})
@@ -321,6 +343,11 @@ UNSUPPORTED = [
     ("name-colliding-str-subclass", lambda rng: _name_collision(str, "str")("s")),
     ("name-colliding-int-subclass-in-builtins-module", lambda rng: _name_collision(int, "int", "builtins")(7)),
     ("name-colliding-dict-subclass-in-builtins-module", lambda rng: _name_collision(dict, "dict", "builtins")(a=1)),
+    ("weakref-proxy-of-frozenset", lambda rng: __import__("weakref").proxy(_PROXIED[0])),
+    ("class-forwarding-proxy-of-list", lambda rng: _Forward([1, 2])),
+    ("class-forwarding-proxy-of-str", lambda rng: _Forward("s")),
+    ("class-forwarding-proxy-of-none", lambda rng: _Forward(None)),
+    ("class-forwarding-proxy-of-int", lambda rng: _Forward(7)),
 ]
 
 
